@@ -3,9 +3,9 @@
 (* terminal.go, one NDJSON event per linearization point, projected by lib/props/c08.py) must be behaviours of     *)
 (* the request/serve/publish/show protocol, and every published or shown result must be the sequential filter of   *)
 (* the snapshot it was computed for.  Oracle[key] = what a fresh `fzf --filter` prints for (query, first n input    *)
-(* lines of the input belonging to the request's revision, minus excluded items, sort flag) - the property's own    *)
-(* yardstick; filter mode itself is bound to the specification by C01/C04.  The revision [major, minor] identifies  *)
-(* the input generation (reload bumps major) and the exclusion set (exclude bumps minor).                           *)
+(* lines of the input the request's snapshot belongs to, minus the items excluded when the request was issued,       *)
+(* --nth in effect, sort flag) - the property's own yardstick; filter mode itself is bound to the specification by   *)
+(* C01/C04.  cfg (on reset events) names that configuration; pcfg the one before the latest exclusion.               *)
 (*                                                                                                                  *)
 (* Events (field ev):                                                                                               *)
 (*   start      sid                                   a new session begins (state reset)                            *)
@@ -29,9 +29,8 @@ VARIABLES l,        \* next event
           sid, issued, no, picked, pubs, shown, lastReset, dev, ended
 vars == <<l, sid, issued, no, picked, pubs, shown, lastReset, dev, ended>>
 
-Key(s, q, n, sort, rev) == ToString(s) \o "|" \o q \o "|" \o ToString(n) \o "|" \o (IF sort THEN "s" ELSE "u")
-                           \o "|" \o ToString(rev[1]) \o "." \o ToString(rev[2])
-ReqOf(e, n) == [q |-> e.q, count |-> e.count, final |-> e.final, sort |-> e.sort, rev |-> e.rev, no |-> n]
+Key(s, q, n, sort, cfg) == ToString(s) \o "|" \o q \o "|" \o ToString(n) \o "|" \o (IF sort THEN "s" ELSE "u") \o "|" \o ToString(cfg)
+ReqOf(e, n) == [q |-> e.q, count |-> e.count, final |-> e.final, sort |-> e.sort, rev |-> e.rev, no |-> n, cfg |-> e.cfg, pcfg |-> e.pcfg]
 Same(r, e) == r.q = e.q /\ r.count = e.count /\ r.final = e.final /\ r.sort = e.sort /\ r.rev = e.rev
 
 (* issued[k]: requests of slot k announced by the coordinator and not yet taken by the matcher, oldest first.      *)
@@ -88,9 +87,9 @@ TCancelled == /\ Is("cancelled") /\ picked # None /\ Same(picked, Ev) /\ issued[
 (* request that is served afterwards refills it, and the request carrying the exclusion is then answered from those  *)
 (* entries: the result is that of the previous exclusion generation.                                                 *)
 TPublish == /\ Is("publish") /\ picked # None /\ Same(picked, Ev)
-            /\ \/ Ev.res = Oracle[Key(sid, Ev.q, Ev.count, Ev.sort, Ev.rev)] /\ dev' = dev
-               \/ /\ Ev.res # Oracle[Key(sid, Ev.q, Ev.count, Ev.sort, Ev.rev)] /\ Ev.rev[2] > 0
-                  /\ Ev.res = Oracle[Key(sid, Ev.q, Ev.count, Ev.sort, <<Ev.rev[1], Ev.rev[2] - 1>>)]
+            /\ \/ Ev.res = Oracle[Key(sid, Ev.q, Ev.count, Ev.sort, picked.cfg)] /\ dev' = dev
+               \/ /\ Ev.res # Oracle[Key(sid, Ev.q, Ev.count, Ev.sort, picked.cfg)] /\ picked.pcfg >= 0
+                  /\ Ev.res = Oracle[Key(sid, Ev.q, Ev.count, Ev.sort, picked.pcfg)]
                   /\ dev' = dev \cup {"StaleChunkCache"}
             /\ pubs' = Append(pubs, [q |-> Ev.q, count |-> Ev.count, final |-> Ev.final, sort |-> Ev.sort, rev |-> Ev.rev, res |-> Ev.res, no |-> picked.no])
             /\ picked' = None
@@ -109,7 +108,7 @@ TQuery == /\ Is("query") /\ UNCHANGED <<sid, issued, no, picked, pubs, shown, la
 
 (* C08: at quiescence the list is the fresh filter of the current query over everything loaded *)
 Converged(e) == /\ shown # None /\ shown.final /\ shown.count = e.total /\ shown.sort = e.sort
-                /\ shown.res = Oracle[Key(sid, e.q, e.total, e.sort, lastReset.rev)]
+                /\ shown.res = Oracle[Key(sid, e.q, e.total, e.sort, lastReset.cfg)]
                 /\ lastReset # None /\ shown.no = lastReset.no
                 /\ e.getres = shown.res /\ e.matchCount = (IF Len(shown.res) = 2 /\ shown.res[1] < 0 THEN -shown.res[1] ELSE Len(shown.res))
 TEnd == /\ Is("end") /\ issued["retry"] = <<>> /\ issued["reset"] = <<>> /\ picked = None
